@@ -263,11 +263,11 @@ def reexport(ctx):
     E = sym.Engine(ctx, max_paths=100000, incremental=True)
     found = E.explore(h)
     seen = set()
-    for label, m, pc in found:
+    for (label, m, pc), A in list(zip(found, E.autosnaps)):
         if label in seen:
             continue
         seen.add(label)
-        ctx.report(label, {"slots": [choice.value_in_model(m, x)[0] for x in h.state], "expected": choice.value_in_model(m, h.want)}, replay_chain)
+        ctx.report(label, {"slots": [choice.value_in_model(m, x)[0] for x in A["state"]], "expected": choice.value_in_model(m, A["want"])}, replay_chain)
     if E.reached.get("correlated"):
         ctx.twins += 1
     else:
